@@ -8,10 +8,12 @@ package vrt
 
 import (
 	"bytes"
+	"encoding/hex"
 	"encoding/json"
 	"fmt"
 	"log"
 	"os"
+	"os/exec"
 	"path/filepath"
 	"strings"
 )
@@ -114,7 +116,41 @@ func Assert(c bool, id string) {
 
 // Once runs f (a concrete, deterministic computation); the engine runs it
 // once per cell and reuses the result.
-func Once(key string, f func() any) any { return f() }
+// Isolated returns what f yields when run in a fresh process: under the
+// engine the heap is rolled back after the call; natively the test binary
+// re-executes itself and runs f there.  It must be the first stateful thing
+// the harness does.
+func Isolated(f func() []byte) []byte {
+	if os.Getenv("VERIF_ISO") == "1" {
+		b := f()
+		fmt.Printf("VERIF-ISO %x\n", b)
+		Cleanup()
+		os.Exit(0)
+	}
+	cmd := exec.Command(os.Args[0], "-test.run", "^TestVerifReplay$")
+	cmd.Env = append(os.Environ(), "VERIF_ISO=1")
+	out, _ := cmd.CombinedOutput()
+	for _, line := range strings.Split(string(out), "\n") {
+		if strings.HasPrefix(line, "VERIF-ISO ") {
+			b, _ := hex.DecodeString(strings.TrimSpace(strings.TrimPrefix(line, "VERIF-ISO ")))
+			return b
+		}
+	}
+	fmt.Printf("VERIF-ERROR isolated run produced no result: %s\n", out)
+	os.Exit(99)
+	return nil
+}
+
+var onceCache = map[string]any{}
+
+func Once(key string, f func() any) any {
+	if v, ok := onceCache[key]; ok {
+		return v
+	}
+	v := f()
+	onceCache[key] = v
+	return v
+}
 
 // Or and And combine conditions without short-circuit evaluation (no path
 // fork under the engine).
